@@ -169,6 +169,6 @@ def h_timestep(ctx, cfg):
     # ---- C20: the curve-number adjustment percentage only counts with its flag
     pct_seen = st.seen["rain"]["pct"]
     if not cfg.get("cn_adj", False):
-        ctx.prove("C20:curve-number adjustment percentage has no effect without its flag", pct_seen == 0 if not isinstance(pct_seen, (int, float)) else pct_seen == 0)
+        ctx.prove("C02,C20:curve-number adjustment percentage has no effect without its flag (the effective curve number is the soil's)", pct_seen == 0 if not isinstance(pct_seen, (int, float)) else pct_seen == 0)
     else:
         ctx.prove("C20:curve-number adjustment percentage is the day's management value", pct_seen is fm_today.curve_number_adj_pct)
